@@ -14,6 +14,8 @@ def section(text, *names):
             return re.sub(r"\s+", " ", m.group(1)).strip()
     return ""
 
+HISTORY = {}
+
 def results():
     """last recorded run of each seed: {seed: [(check, tier, rc, nviol, first violation line)]}"""
     out = {}
@@ -26,6 +28,8 @@ def results():
         m = re.match(r"### (\S+) vs (\S+) \((\w+)\)", l)
         if m:
             cur = m.group(1)
+            if cur in out and out[cur]:
+                HISTORY.setdefault(cur, []).extend(out[cur])
             out[cur] = []  # a later run of the same seed replaces the earlier one
             continue
         m = re.match(r"== (\S+) (\w+) rc=(\d+): (\d+) violation lines", l)
@@ -67,6 +71,7 @@ def main():
                 "how": "tools/try_seed.sh: git -C /repo apply patch.diff; ./check <property> <tier>; git -C /repo checkout -- .",
                 "runs": runs,
                 "detected": detected,
+                "earlier_runs_before_the_check_was_strengthened": HISTORY.get(sid, []),
             },
         }
         if os.path.exists(os.path.join(d, "patch.original.diff")):
@@ -75,6 +80,7 @@ def main():
         table.append((sid, title, detected, runs))
     for sid, title, det, runs in table:
         by = ", ".join("%s %s (%d lines)" % (r["check"], r["tier"], r["violation_lines"]) for r in runs if r.get("exit") == 1) or ("not run" if not runs else "missed: " + "; ".join(r.get("problem", "%s %s rc=%s" % (r.get("check"), r.get("tier"), r.get("exit"))) for r in runs))
-        print("| %s | %s | %s | %s |" % (sid, title[:90].replace("|", "/"), "yes" if det else "NO", by))
+        missed = any(r.get("exit") == 0 for r in HISTORY.get(sid, []))
+        print("| %s | %s | %s | %s |" % (sid, title[:90].replace("|", "/"), ("yes (missed before strengthening)" if missed else "yes") if det else "NO", by))
 
 main()
